@@ -38,7 +38,16 @@ IphRun(b) == Final(b, "strict", "struct", "ip", -1, "ip")
 IphSliceMism(e) == LET r == IphRun(e.bytes) IN
   IF r.v = "ok" THEN (IF e.slice.k # "ok" THEN {"slice.rejected:" \o e.slice.k} ELSE IF e.slice.used # r.pay.off THEN {"slice.consumed"} ELSE {})
   ELSE (IF e.slice.k = "ok" THEN {"slice.accepted"} ELSE {})
+\* C06 compares reader and slice decoder on "a slice that holds the announced packet": not comparable are slices shorter than
+\* the announced total / payload length (the reader cannot see how much data follows the headers) and IPv6 headers with payload
+\* length 0 followed by data (slices: "up to the end of the enclosing data", a reader has no enclosing data)
+IphComparable(b) ==
+  IF Len(b) < 6 THEN TRUE
+  ELSE IF Hi4(B(b, 0)) = 4 THEN Len(b) >= U16(b, 2)
+  ELSE IF Hi4(B(b, 0)) = 6 THEN Len(b) >= 40 + U16(b, 4) /\ ~(U16(b, 4) = 0 /\ Len(b) > 40)
+  ELSE TRUE
 IphReadMism(e) == LET r == IphRun(e.bytes) IN
+  IF ~IphComparable(e.bytes) THEN UNION {LET x == e.reads[i] IN IF x[2] = "ok" /\ x[3] > x[1] THEN {"read.consumed_more_than_delivered"} ELSE {} : i \in 1..Len(e.reads)} ELSE
   UNION {LET x == e.reads[i]  okHere == r.v = "ok" /\ x[1] >= r.pay.off IN
          IF okHere THEN (IF x[2] # "ok" THEN {"read.rejected_what_slice_accepts:" \o x[2]}
                          ELSE (IF x[3] # r.pay.off THEN {"read.consumed"} ELSE {}) \cup (IF x[4] # 1 THEN {"read.value_differs_from_slice"} ELSE {}))
